@@ -11,7 +11,7 @@ use crate::engine::{guard, pick, run_sub, Ctx, Opts, Report, Sub, Tier};
 use crate::gen::dict::{assemble_rows, raw_rows, render_lex_rows, CostRegime, DictParams, LexRow};
 use crate::props::common::{build_case_dict, c12_precondition, tok_case, TokCase, TokCaseParams};
 use crate::props::dictops::{apply, apply_all, diff_obs, observe, read_image, write_image, DOp};
-use crate::refmodel::{make_tokenizer, tokens_of, RefDict};
+use crate::refmodel::{tokens_of, RefDict};
 
 // ---------------------------------------------------------------------------------------------
 // (a) equivalence with an extended system lexicon
@@ -54,8 +54,8 @@ impl Sub for Extended {
         ctx.label(case.spec.conn.kind());
         type K = (usize, usize, usize, bool, u16, u16, i32, u32);
         for o in &case.opts {
-            let du = make_tokenizer(build_case_dict(&files, Some(user), None, false)?, o.ignore_space, o.max_grouping_len)?;
-            let de = make_tokenizer(build_case_dict(&files_ext, None, None, false)?, o.ignore_space, o.max_grouping_len)?;
+            let du = crate::refmodel::make_tokenizer_h(build_case_dict(&files, Some(user), None, false)?, o.ignore_space, o.max_grouping_len, o.history)?;
+            let de = crate::refmodel::make_tokenizer_h(build_case_dict(&files_ext, None, None, false)?, o.ignore_space, o.max_grouping_len, o.history)?;
             let mut wu = du.new_worker();
             let mut we = de.new_worker();
             for s in &case.sentences {
